@@ -10,7 +10,7 @@ import pandas as pd
 from . import gen_geom as gg
 from .ctx import stable_hash
 
-INDEX_KINDS = ["default", "named", "string", "nonunique", "shuffled-int"]
+INDEX_KINDS = ["default", "named", "string", "nonunique", "shuffled-int", "sorted-ties"]
 
 _uid_counter = [0]
 
@@ -35,6 +35,10 @@ def make_index(rng, n, kind):
         return pd.Index(rng.integers(0, max(1, n // 2), n), name="dup")
     if kind == "shuffled-int":
         return pd.Index(rng.permutation(n) + 100)
+    if kind == "sorted-ties":
+        # unnamed, sorted, with ties balanced by gaps: 0,0,2,3,3,5,... (first, last and length are those
+        # of a plain range, the labels are not)
+        return pd.Index([3 * (i // 3) + (0, 0, 2)[i % 3] for i in range(n)])
     raise ValueError(kind)
 
 
